@@ -1110,6 +1110,55 @@ pub fn run_c05(run: &mut Run, replay: Option<&std::path::Path>) -> anyhow::Resul
     for case in 0..(if run.quick() { 4 } else { 60 }) {
         background_dial_meets_inbound(run, case)?;
     }
+    for case in 0..(if run.quick() { 2 } else { 12 }) {
+        slow_link_mutual_dial(run, case)?;
+    }
+    Ok(())
+}
+
+/// Simultaneous dials over a SLOW link, in REAL time (the other network scenarios run under tokio's virtual
+/// clock, which anything that reads the OS clock does not follow): 250-400 ms one-way latency, so the two
+/// registrations on each side lie hundreds of real milliseconds apart.
+fn slow_link_mutual_dial(run: &mut Run, case: u64) -> anyhow::Result<()> {
+    let seed = run.seed ^ 0x510e ^ (case << 16);
+    run.mark(&format!("scenario slow_link_mutual_dial case {case} seed {} (real time; re-run with ./check C05 --seed <seed>)", run.seed));
+    let lat = 250_000 + 50_000 * (case % 4);
+    let rt = tokio::runtime::Builder::new_multi_thread().worker_threads(4).enable_all().build()?;
+    let res: anyhow::Result<serde_json::Value> = rt.block_on(async move {
+        let fabric = Fabric::new(seed);
+        fabric.set_faults(Faults { loss_permille: 0, dup_permille: 0, min_latency_us: lat, max_latency_us: lat });
+        let a = start_node(&fabric, seed, 1, config_idle(60_000))?;
+        let b = start_node(&fabric, seed, 2, config_idle(60_000))?;
+        let mut la = NodeLog::new(&a.net);
+        let mut lb = NodeLog::new(&b.net);
+        let (na, nb, aa, ba) = (a.net.clone(), b.net.clone(), a.addr, b.addr);
+        let skew = Duration::from_millis(40 * (case % 3));
+        let (r1, r2) = tokio::join!(na.connect(ba), async {
+            tokio::time::sleep(skew).await;
+            nb.connect(aa).await
+        });
+        tokio::time::sleep(Duration::from_millis(2_500)).await;
+        la.pump();
+        lb.pump();
+        let (ea, eb) = (la.events.len(), lb.events.len());
+        let mk = |id: &str| Request::new(Bytes::from_static(b"x")).with_header("x-id", id);
+        let rab = tokio::time::timeout(Duration::from_secs(8), a.net.rpc(b.id, mk("ab"))).await.map(|r| r.is_ok()).unwrap_or(false);
+        let rba = tokio::time::timeout(Duration::from_secs(8), b.net.rpc(a.id, mk("ba"))).await.map(|r| r.is_ok()).unwrap_or(false);
+        tokio::time::sleep(Duration::from_millis(1_000)).await;
+        la.pump();
+        lb.pump();
+        Ok(json!({"dial_a_ok": r1.is_ok(), "dial_b_ok": r2.is_ok(), "a_lists_b": a.net.peers().iter().filter(|p| **p == b.id).count(), "b_lists_a": b.net.peers().iter().filter(|p| **p == a.id).count(),
+                  "rpc_a_to_b": rab, "rpc_b_to_a": rba, "late_events": (la.events.len() - ea) + (lb.events.len() - eb),
+                  "events_a": la.events.iter().map(ev_str).collect::<Vec<_>>(), "events_b": lb.events.iter().map(ev_str).collect::<Vec<_>>()}))
+    });
+    drop(rt);
+    let o = res?;
+    let ok = o["a_lists_b"] == json!(1) && o["b_lists_a"] == json!(1) && o["rpc_a_to_b"] == json!(true) && o["rpc_b_to_a"] == json!(true) && o["late_events"] == json!(0);
+    run.eval(&format!("slow-link-mutual-dial {case}"), true);
+    run.count("slow-link-mutual-dial", if ok { "converged" } else { "broken" });
+    if !ok {
+        run.oracle_fail(json!({"kind": "simultaneous dials over a slow link (real time) did not converge on one shared connection", "one_way_latency_us": lat, "observed": o, "seed": run.seed, "case": case}));
+    }
     Ok(())
 }
 
